@@ -493,7 +493,9 @@ def _c20_blanks(rec):
     if rec.get("kind") != "ignored_line_not_carried_over" or d.get("attributed_rule") or rec.get("rule"):
         return False
     line = d.get("line") or ""
-    if line == line.expandtabs(4).rstrip():
+    i = line.find("#")
+    tidy = line[:i].expandtabs(4).rstrip() + "  " + line[i:].rstrip() if i > 0 and line[:i].strip() else line.expandtabs(4).rstrip()
+    if line == tidy:
         return False  # nothing on this line for the layout stages to normalise
     return d.get("line_present_up_to_tab_expansion_and_trailing_blanks") is True
 
